@@ -2,6 +2,7 @@ import Driver.Util
 import Driver.Codec
 import Driver.Srv
 import Driver.Cli
+import Driver.Os
 /-
 Line-protocol driver: one operation per input line, one model answer per output line.
 Unknown or unparsable operations answer `bad-op` (never a default).
@@ -16,7 +17,7 @@ def dispatch (st : DState) (line : String) : DState × String :=
     match codecCmd cmd a with
     | some s => (st, s)
     | none =>
-      match cliCmd cmd a with
+      match (cliCmd cmd a <|> osCmd cmd a) with
       | some s => (st, s)
       | none =>
         match (if cmd = "newcfg" then newcfgCmd a else srvCmd st cmd a) with
